@@ -327,7 +327,8 @@ def fractions_stream(rng, thorough, streams, viol, samples):
         chosen = rng.sample(radio, rng.randint(2, 4))
         mag = rng.choice([-22, -18, -12, -6, 0, 6, 15])
         unit = rng.choice(["Bq", "g", "mol", "kBq", "mg", "num"])
-        cont = {c: float(f"{10 ** (mag + rng.uniform(0, 2)):.5g}").hex() for c in chosen}
+        spread = 2 if k % 2 == 0 else 30      # every other one spans 30 orders of magnitude: shares far below 1e-16
+        cont = {c: float(f"{10 ** (mag + rng.uniform(0, spread)):.5g}").hex() for c in chosen}
         cases.append({"contents": cont, "unit": unit, "decay": None, "scale": float(4.0).hex(), "hp": True})
     impl = run_impl("impl_fractions.py", cases, timeout=3000)
     terms, idxmap, bad_prop = [], [], []
